@@ -10,6 +10,7 @@ import importlib
 import inspect
 import json
 import os
+import re
 import subprocess
 import sys
 import time
@@ -107,9 +108,10 @@ def _run_demos(prop):
         demo = e.get("demo")
         if not demo:
             continue
-        path = os.path.join(ROOT, demo)
+        demo_file, *demo_args = demo.split()
+        path = os.path.join(ROOT, demo_file)
         t0 = time.time()
-        p = subprocess.run([PY, path], cwd=ROOT, env=env, capture_output=True, text=True, timeout=900)
+        p = subprocess.run([PY, path] + demo_args, cwd=ROOT, env=env, capture_output=True, text=True, timeout=900)
         out = (p.stdout + p.stderr).strip()[-600:]
         rec = {"name": "demo:" + e["key"], "engine": "replay-concrete", "evaluations": 1, "wall_s": round(time.time() - t0, 2), "sample": {"demo": demo, "output": out[-300:]}}
         present = p.returncode == 1
@@ -248,7 +250,16 @@ def run_property(prop, tier):
     for r in drv_records:
         records.append(r)
         if r.get("verdict") == "violation":
-            violations.append((r["name"], r.get("replay", "")))
+            rp = r.get("replay") or ""
+            if not rp:
+                # drivers that re-run the real code themselves (E3 cells, demos) describe the failing input in words
+                d = os.path.join(ROOT, "replays", prop)
+                os.makedirs(d, exist_ok=True)
+                rp = os.path.join(d, re.sub(r"[^A-Za-z0-9_.-]+", "_", r["name"]) + ".txt")
+                with open(rp, "w") as f:
+                    f.write("property %s, obligation %s\nfailing input (reproduced concretely against the real code by the driver):\n%s\nre-run: bin/check %s\n" % (prop, r["name"], r.get("detail", ""), prop))
+                r["replay"] = rp
+            violations.append((r["name"], rp))
         if r.get("verdict") == "known":
             known_lines.append(r)
 
